@@ -387,4 +387,5 @@ def targets(ctx):
         __import__("vf.props._inherit", fromlist=["target"]).target(c),
         _seq.target("C01"),
         _wkt.target("C01"),
+        *__import__("vf.props._thr", fromlist=["target"]).target(ctx, ['parse:Leaf', 'bytes:Leaf', 'parse:Solo', 'bytes:Names']),
     ]
